@@ -11,9 +11,10 @@ CONSTANTS
   RedVars <- L_RedVars
   SubVals <- L_SubVals
   NewNames <- L_NewNames
-  APlus = "add"
-  ATimes = "mul"
-  Tag = "semiring_maxmul"
+  APlus = "logaddexp"
+  ATimes = "add"
+  Tag = "adj_logaddexp"
 INVARIANT Inv_TypeSound
-INVARIANT Emit
+INVARIANT Inv_AdjDefinitional
+INVARIANT EmitAdj
 CHECK_DEADLOCK FALSE
